@@ -180,6 +180,21 @@ fn horner_n<B: Backend>(name: &'static str, packing: TablePacking, steps: usize)
     finish::<B>(name, b, Inputs { public, private: vec![], siblings: vec![] }, packing)
 }
 
+/// A private input whose FIRST use is `assert_bool`: the BoolCheck row creates the slot, its
+/// `a` port duplicates `out` off the bus; the value is then read by a Mul.
+fn bool_priv<B: Backend>(name: &'static str, packing: TablePacking) -> Result<Box<dyn Case>, String> {
+    let mut b = B::new_builder();
+    let p = b.alloc_private_input("p");
+    b.assert_bool(p);
+    let k = b.public_input();
+    let r = b.mul(p, k);
+    let expected = b.public_input();
+    b.connect(r, expected);
+    let kv = tag::<B>(11);
+    let inputs = Inputs { public: vec![kv, kv], private: vec![B::EF::ONE], siblings: vec![] };
+    finish::<B>(name, b, inputs, packing)
+}
+
 /// `decompose_to_bits(x, 4)`: hint outputs, BoolChecks, reconstruction chain, connect.
 fn bits<B: Backend>(name: &'static str, packing: TablePacking) -> Result<Box<dyn Case>, String> {
     let mut b = B::new_builder();
@@ -681,6 +696,9 @@ pub fn catalogue() -> Vec<Spec> {
         spec!("bb1-horner7-k5", BbD1, "7-step chain under K_max = 5: rows of arity 5 and 2", |n| horner_n::<BbD1>(n, TablePacking::new(1, 1).with_horner_pack_k(5), 7)),
         spec!("bb1-horner7-k3-l2", BbD1, "7-step chain under K_max = 3, two ALU lanes", |n| horner_n::<BbD1>(n, TablePacking::new(1, 2).with_horner_pack_k(3), 7)),
         spec!("bb1-bits", BbD1, "decompose_to_bits hint, BoolCheck, reconstruction; D=1", |n| bits::<BbD1>(n, TablePacking::default())),
+        spec!("bb4-boolpriv", BbD4, "private input first used by assert_bool (BoolCheck row creates the slot, `a` duplicates `out` off the bus); D=4", |n| bool_priv::<BbD4>(n, TablePacking::default())),
+        spec!("bb1-boolpriv", BbD1, "the same over the base field", |n| bool_priv::<BbD1>(n, TablePacking::default())),
+        spec!("bb4-bits", BbD4, "decompose_to_bits hint, BoolCheck, reconstruction; D=4", |n| bits::<BbD4>(n, TablePacking::default())),
         spec!("bb4-arith", BbD4, "ALU kinds over the binomial quartic extension", |n| arith::<BbD4>(n, TablePacking::default())),
         spec!("bb4-horner", BbD4, "HornerAcc chain over the quartic extension", |n| horner::<BbD4>(n, TablePacking::default())),
         spec!("bb4-recompose", BbD4, "ext decomposition hint, plain recompose table, recompose/coeff table; D=4", |n| recompose::<BbD4>(n, TablePacking::default())),
@@ -710,5 +728,5 @@ pub fn catalogue() -> Vec<Spec> {
 }
 
 /// Circuits of the quick tier, cheapest first (the budget cuts from the end).
-pub const QUICK: [&str; 12] =
-    ["bb1-arith", "bb1-alias", "bb1-rowalias", "kb4-merkle-wfed", "bb1-horner", "bb1-horner-k4", "bb1-horner7-k4", "bb4-recompose", "bb4-challenger", "kb4-sponge-partial", "bb1-bits", "bb4-merkle"];
+pub const QUICK: [&str; 13] =
+    ["bb1-arith", "bb1-alias", "bb1-rowalias", "bb4-boolpriv", "kb4-merkle-wfed", "bb1-horner", "bb1-horner-k4", "bb1-horner7-k4", "bb4-recompose", "bb4-challenger", "kb4-sponge-partial", "bb1-bits", "bb4-merkle"];
